@@ -91,6 +91,7 @@ func stdEnv(r *mon.Rng) *env {
 	add("not", vInt(6)) // reachable only as quoted identifiers
 	add("FALSE", vBool(true))
 	add("in", vInt(9))
+	add("\"a\"", vInt(29)) // a name that itself starts and ends with a quote character: written """a"""
 	add("ds", vStr(mon.Pick(r, []string{"2024-01-01T10:00:00Z", "2024-01-02T10:00:00Z", "2024-01-03T10:00:00Z", "2024-01-04T10:00:00Z", "2024-01-05T10:00:00Z", "2024-01-06T23:30:00-11:00"})))
 	add("dt", vTime(time.Unix(int64(86400*(19000+r.Intn(7))), 0).UTC()))
 	return e
@@ -111,7 +112,7 @@ func (g *exprGen) typed(depth int, want string) *model.Node {
 		case "bool":
 			return mon.Pick(r, []*model.Node{leafConst("TRUE"), leafConst("false"), leafVar("p"), leafVar("q")})
 		case "str":
-			return mon.Pick(r, []*model.Node{leafConst("'ab'"), leafConst("'b'"), leafConst("'it''s'"), leafVar("s"), leafVar("t")})
+			return mon.Pick(r, []*model.Node{leafConst("'ab'"), leafConst("'b'"), leafConst("'it''s'"), leafVar("s"), leafVar("t"), leafConst("'2'"), leafConst("'11'"), leafConst("'1.5'")})
 		case "num":
 			return mon.Pick(r, []*model.Node{leafConst("1.5"), leafConst("2e1"), leafVar("f"), leafVar("x"), leafConst("3"), leafVar("a")})
 		}
@@ -203,9 +204,9 @@ func (g *exprGen) shape(depth int) *model.Node {
 	r := g.r
 	if depth <= 0 || r.Chance(1, 6) {
 		if r.Chance(1, 3) {
-			return leafConst(mon.Pick(r, []string{"2", "3", "5", "'s'", "TRUE", "1.5", "7"}))
+			return leafConst(mon.Pick(r, []string{"2", "3", "5", "'s'", "TRUE", "1.5", "7", "'2'", "'3'", "'1.5'", "'TRUE'", "'a'"}))
 		}
-		return leafVar(mon.Pick(r, []string{"a", "b", "c", "s", "p", "n", "arr", "\"my var\"", "\"not\"", "\"FALSE\"", "\"in\""}))
+		return leafVar(mon.Pick(r, []string{"a", "b", "c", "s", "p", "n", "arr", "\"my var\"", "\"not\"", "\"FALSE\"", "\"in\"", "\"\"\"a\"\"\""}))
 	}
 	d := depth - 1
 	switch x := r.Intn(30); {
